@@ -10,7 +10,7 @@ Module PC := PaymentsCheck.
 Definition mkCt := P.mkCt.
 
 Definition jobs : Type :=
-  outp * list (option N * bool * list (N * N)) * list (option (EC.eobs * EC.eobs)).
+  outp * list (option N * (bool * bool) * list (N * N)) * list (option (EC.eobs * EC.eobs)).
 
 Definition joint_case : Type := (profile * nat * N * N * list N) * list jop * list jobs.
 
